@@ -76,11 +76,16 @@ BATCH = 60
 # generator
 
 class Gen:
-    def __init__(self, rng, max_depth=4, with_macros=True, multipass=False):
+    def __init__(self, rng, max_depth=4, with_macros=True, multipass=0):
         self.rng = rng
-        # multipass: a forward reference forces a second pass.  The manual does not say whether 'referenced up to now'
-        # (IFUSED) spans passes, so IFUSED/IFNUSED are not generated in such programs.
-        self.multipass = multipass
+        # multipass 2|3: forward references force that many passes.  Every probe (IFDEF, IFUSED, DEFINED(), SET variables)
+        # is documented in terms of the source position ('defined before', 'referenced up to now'), so the model's
+        # single walk in source order is the prediction for every pass.
+        self.multipass = int(multipass or 0)
+        # symbols that get defined LATER in the source (between top-level skeletons or at the end): IFDEF in front of the
+        # definition is false ("the definition has to appear before IFDEF"), behind it true
+        self.late = ['lt1', 'lt2', 'lt3', 'lt4']
+        self.late_all = list(self.late)
         self.max_depth = max_depth
         self.n = 0x1000
         self.cid = 0
@@ -94,7 +99,7 @@ class Gen:
         for i in range(1, 7):
             consts['u%d' % i] = 0x7000 + i
             self.unames.append('u%d' % i)
-        self.prog = {'consts': consts, 'cmddefs': cmddefs, 'fwdref': bool(multipass), 'vars': {'v1': 1, 'v2': 2, 'v3': 3}, 'macros': [], 'files': FILES, 'items': []}
+        self.prog = {'consts': consts, 'cmddefs': cmddefs, 'fwdref': self.multipass, 'vars': {'v1': 1, 'v2': 2, 'v3': 3}, 'macros': [], 'files': FILES, 'items': []}
         self.cvals = dict(consts)
         self.cvals.update(cmddefs)
         self.groups = []
@@ -103,6 +108,8 @@ class Gen:
             for i in range(rng.randrange(1, 4)):
                 self.gen_macro('mac%d' % (i + 1))
         self.m = cond.Machine(self.prog)
+        for n in self.late:
+            self.m.res.tracked.add(n.upper())
         self.exitm_depths = set()
 
     # -- small helpers
@@ -141,6 +148,8 @@ class Gen:
         rng = self.rng
         r = rng.random()
         if d <= 0 or r < 0.25:
+            if rng.random() < 0.1:
+                return self.isdef_leaf()
             if rng.random() < 0.4:
                 if params and rng.random() < 0.5:
                     ps = [p for p, t in params if t == 'int']
@@ -154,6 +163,67 @@ class Gen:
         if r < 0.45:
             return ['not', self.rand_expr(d - 1, params)]
         return [rng.choice(['and', 'or']), self.rand_expr(d - 1, params), self.rand_expr(d - 1, params)]
+
+    def isdef_leaf(self):
+        """DEFINED(name) on a symbol that is defined above this point or never (the manual says only 'whether a symbol is
+        defined or not', so symbols defined further down are left to IFDEF, whose text is explicit about them)"""
+        rng = self.rng
+        m = getattr(self, 'm', None)
+        if m is None:
+            return ['isdef', rng.choice(self.cnames[:6] + ['zq1', 'zq2'])]
+        if rng.random() < 0.5:
+            return ['isdef', rng.choice(sorted(n for n in m.res.defined if not n.startswith('U'))).lower()]
+        late = set(n.upper() for n in self.late_all)
+        pool = sorted(n for n in m.res.tracked if n not in m.res.defined and n not in late)
+        return ['isdef', rng.choice(pool).lower() if pool else 'zq1']
+
+    def probe_group(self):
+        """the same probe in front of and behind the statement that changes its answer: IFUSED/IFNUSED around the first
+        reference of a constant, IFDEF/IFNDEF around the definition of a late symbol"""
+        rng = self.rng
+
+        def probe(head):
+            it = {'t': 'if', 'cid': self.newcid(), 'head': head, 'body': [self.mark()], 'elifs': [],
+                  'else': [self.mark()] if rng.random() < 0.7 else None, 'else_kw': 'else', 'end_kw': 'endif'}
+            self.m.step(it)
+            return it
+        g = [self.mark()]
+        self.m.step(g[0])
+        unused = [u for u in self.unames if u not in self.m.used]
+        if unused and (not self.late or rng.random() < 0.6):
+            u = rng.choice(unused)
+            g.append(probe(['used', u, rng.random() < 0.5]))
+            g.append(probe(['used', u, rng.random() < 0.5]))
+            use = {'t': 'use', 'name': u}
+            self.m.step(use)
+            g.append(use)
+            g.append(probe(['used', u, rng.random() < 0.5]))
+        elif self.late:
+            name = self.late[0]
+            g.append(probe(['def', name, rng.random() < 0.5]))
+            self.groups.append(g)
+            self.prog['items'] += g
+            self.define_late()
+            g = [probe(['def', name, rng.random() < 0.5]), probe(['expr', ['isdef', name]])]
+        t = self.mark()
+        self.m.step(t)
+        g.append(t)
+        self.groups.append(g)
+        self.prog['items'] += g
+
+    def define_late(self, everything=False):
+        """define one (or all) of the pending late symbols at top level"""
+        out = []
+        while self.late:
+            name = self.late.pop(0)
+            kind = self.rng.choice(['label', 'equ'])
+            it = {'t': 'def', 'kind': kind, 'name': name, 'val': self.rng.randrange(1, 0xfff)}
+            self.m.step(it)
+            out.append(it)
+            if not everything:
+                break
+        self.prog['items'] += out
+        return out
 
     def raw_int(self, params=None):
         """an integer-valued operand used directly as a truth value: literal, symbol, or a masked symbol (flags & $100)"""
@@ -207,7 +277,7 @@ class Gen:
             return ['def', name, neg]
         if k == 'used':
             pool = [u for u in self.unames if (u in m.used) == base]
-            if pool and not self.multipass:
+            if pool:
                 return ['used', rng.choice(pool), neg]
             k = 'expr'
         if k == 'exist':
@@ -383,7 +453,7 @@ class Gen:
             n = rng.randrange(1, 4)
             args = [(['param', rng.choice(bl)] if rng.random() < 0.7 else ['txt', rng.choice(['', '', 'x'])]) for _ in range(n)]
             return ['blank', args, rng.random() < 0.5]
-        if r < 0.5 and not self.multipass:
+        if r < 0.5:
             return ['used', rng.choice(self.unames), rng.random() < 0.5]
         if r < 0.6:
             name, q = rng.choice(EXIST_YES + EXIST_NO)
@@ -1024,8 +1094,8 @@ def judge2(ctx, prog, name):
         raise Inconclusive('harness: no end-of-pass event in the trace (rc=%s)' % a.rc)
     out.obs['passes_observed'] += len(q)
     if len(q) != exp.passes and not errs:
-        # not a verdict of this property, but the pass count is part of what the model assumes
-        raise Inconclusive('harness: %d passes observed, model assumes %d' % (len(q), exp.passes))
+        # the number of passes is not part of this property; the output of the final pass is judged all the same
+        out.obs['programs_with_unexpected_pass_count'] += 1
     fin = max([int(e['pass']) for e in q + errs] or [1])
     warns_fin = [e for e in warns if int(e['pass']) == fin]
     for e in errs + warns:
@@ -1036,7 +1106,7 @@ def judge2(ctx, prog, name):
     want = bytes(exp.out)
     item, bkey, bw, bg = (None, None, None, None)
     # in a two-pass program the first unit is the address of the label behind the last byte: it differs whenever anything differs
-    skip = 2 if prog.get('fwdref') else 0
+    skip = cond.prologue_len(prog)
     if b != want:
         item, bkey, bw, bg = blame(prog, exp, units(want[skip:]), units(b[skip:]))
     tail = '\n--- source\n%s' % (src if len(src) < 2500 else src[:1200] + '\n...\n' + src[-1200:])
@@ -1243,9 +1313,12 @@ def run_case(case, ctx):
         gen = Gen(rng, with_macros=False)
         build_ifb_family(gen, case['part'])
     elif fam == 'shapes':
-        gen = Gen(rng, with_macros=True)
+        gen = Gen(rng, with_macros=True, multipass=rng.choice([0, 0, 0, 2, 3]))
         for s in case['shapes']:
             build_shape(gen, tuple(s))
+            if rng.random() < 0.05:
+                gen.probe_group()
+        gen.define_late(everything=True)
     elif fam == 'deep':
         sys.setrecursionlimit(20000)
         gen = Gen(rng, with_macros=False)
@@ -1253,15 +1326,23 @@ def run_case(case, ctx):
         gen.group()
         ctx.out.sets['deep_chain_depths'].add(case['depth'])
     elif fam == 'exitm':
-        gen = Gen(rng, with_macros=True)
+        gen = Gen(rng, with_macros=True, multipass=rng.choice([0, 0, 0, 2, 3]))
         for _ in range(case['groups']):
             gen.exitm_group()
             if rng.random() < 0.3:
                 gen.group()
+            if rng.random() < 0.3:
+                gen.probe_group()
+        gen.define_late(everything=True)
         for d in gen.exitm_depths:
             ctx.out.sets['exitm_(open_in_body,open_at_call,kind)'].add('%d,%d,%s' % d)
     else:
-        gen = Gen(rng, with_macros=True, multipass=rng.random() < 0.25)
+        # one, two or three passes; symbols defined between the skeletons and at the end are probed (IFDEF) in front of and
+        # behind their definition, constants are probed (IFUSED) in front of and behind their first reference
+        gen = Gen(rng, with_macros=True, multipass=rng.choice([0, 0, 2, 2, 3]))
         for _ in range(case['groups']):
             gen.group()
+            if rng.random() < 0.5:
+                gen.probe_group()
+        gen.define_late(everything=True)
     run_wellformed(ctx, gen, fam)
